@@ -97,7 +97,7 @@ static const struct opdesc OPS[] = {
     {"cif_create", 0}, {"create_block", 1}, {"get_block", 0}, {"get_all_blocks", 0}, {"create_frame", 1}, {"get_frame", 0}, {"get_all_frames", 0},
     {"get_code", 0}, {"destroy_frame", 1},
     {"create_loop", 1}, {"get_all_loops", 0}, {"get_names", 0}, {"get_category", 0}, {"set_category", 1}, {"get_item_loop", 0}, {"get_cat_loop", 0},
-    {"add_packet", 1}, {"add_item", 1}, {"set_value_new", 1}, {"set_value_existing", 1}, {"get_value", 0}, {"get_value_looped", 0}, {"remove_item", 1}, {"prune", 0},
+    {"add_packet", 1}, {"add_item", 1}, {"set_value_new", 1}, {"set_value_existing", 1}, {"set_value_biglist", 1}, {"get_value", 0}, {"get_value_looped", 0}, {"remove_item", 1}, {"prune", 0},
     {"loop_destroy", 1}, {"get_packets", 0}, {"iter_next", 0}, {"iter_update", 1}, {"iter_remove", 1},
     {"walk", 0}, {"write", 0}, {"parse", 0}, {"parse_into", 1},
     {NULL, 0}
@@ -178,6 +178,16 @@ static int run_op(const char *op, struct scn *s, int *isnull) {
     }
     else if (!strcmp(op, "add_item")) { UChar *c = U("_new"); ARM(); rc = cif_loop_add_item(s->l, c, s->tbl); DISARM(); if (rc == CIF_OK) cif_container_remove_item(s->b, c); free(c); }
     else if (!strcmp(op, "set_value_new")) { UChar *c = U("_new"); ARM(); rc = cif_container_set_value(s->b, c, s->tbl); DISARM(); if (rc == CIF_OK) cif_container_remove_item(s->b, c); free(c); }
+    else if (!strcmp(op, "set_value_biglist")) {
+        /* a list whose serialised form outgrows the 512-byte serialisation buffer more than once (cif_buf_write's growth, incl. its
+           fall-back to the exact size when the generous request fails) */
+        cif_value_tp *big = NULL; UChar *c = U("_big"); int i;
+        cif_value_create(CIF_LIST_KIND, &big);
+        for (i = 0; big && i < 60; i++) cif_value_insert_element_at(big, (size_t) i, (i % 7 == 3) ? s->num : s->v);
+        ARM(); rc = cif_container_set_value(s->b, c, big); DISARM();
+        if (rc == CIF_OK) { cif_value_tp *back = NULL; if (cif_container_get_value(s->b, c, &back) == CIF_OK) { size_t n = 0; cif_value_get_element_count(back, &n); if (n != 60) rc = 9999; cif_value_free(back); } cif_container_remove_item(s->b, c); }
+        cif_value_free(big); free(c);
+    }
     else if (!strcmp(op, "set_value_existing")) { UChar *c = U("_s"); ARM(); rc = cif_container_set_value(s->b, c, s->lst); DISARM(); if (rc == CIF_OK) cif_container_set_value(s->b, c, s->tbl); free(c); }
     else if (!strcmp(op, "get_value")) { UChar *c = U("_s"); ARM(); rc = cif_container_get_value(s->b, c, &s->w); DISARM(); free(c); }
     else if (!strcmp(op, "get_value_looped")) { ARM(); rc = cif_container_get_value(s->b, s->n_a, &s->w); DISARM(); if (rc == CIF_AMBIGUOUS_ITEM) rc = CIF_OK; }
